@@ -148,6 +148,9 @@ func ResponseEncoder(ctx context.Context, w http.ResponseWriter) Encoder {
 				default:
 					enc = json.NewEncoder(w)
 				}
+			} else {
+				// malformed content type: default to JSON
+				enc, mt = negotiate("")
 			}
 			SetContentType(w, mt)
 			return enc
